@@ -111,8 +111,13 @@ def warm():
 # helpers
 # ------------------------------------------------------------------------------------------------
 
-def count_band(values):
-    return sum(1 for a in np.asarray(values, dtype=float).reshape(-1) if BAND_LO < abs(a) < BAND_HI)
+def dropped(values):
+    """Total rotation the library's exponential may drop: MatrixExp3/6 return the identity rotation for
+    |w theta| < 1e-6 (NearZero).  Sum of the magnitudes below 2e-6 (the house band's upper edge; exact zeros cost
+    nothing).  Unlike the flat 5e-6 of the other properties this scales with the value, because C07's own
+    tolerances go down to 1e-9 -- a joint value of 9e-10 that is dropped matters here."""
+    a = np.abs(np.asarray(values, dtype=float).reshape(-1))
+    return float(np.sum(a[(a > 0) & (a < BAND_HI)]))
 
 
 def as_T(x, what):
@@ -132,8 +137,8 @@ class Setup:
         self.arm, self.model = sut(A.build_arm, spec)
         m = self.model
         self.ctx = ctx
-        self.pt = float(case["pos_tol"])
-        self.rt = float(case["rot_tol"])
+        self.pt = float(case["tol"]["pos"])
+        self.rt = float(case["tol"]["rot"])
         if self.pt == self.rt:
             # the quantifier wants pos_tol != rot_tol; Hypothesis likes to repeat a float, so make them differ
             self.rt = self.pt * 3.0 if self.pt < 1e-2 else self.pt / 3.0
@@ -142,11 +147,11 @@ class Setup:
         wn = np.linalg.norm(m.S[:3, :], axis=0)
         if np.any(np.abs(wn - 1.0) > 1e-9):
             raise HarnessError("fixture arm with a non-revolute / non-unit joint axis: %r" % (wn,))
-        # in-band angles baked into the arm (the library drops them, the model keeps them)
+        # tiny rotations baked into the arm: the library drops them (tm(TAA) -> identity), the model keeps them
         sticky = [float(np.linalg.norm(np.asarray(spec["base"], dtype=float)[3:]))]
         if spec["kind"] == "random":
             sticky.append(float(np.linalg.norm(np.asarray(spec["ee_home"], dtype=float)[3:])))
-        self.sticky = count_band(sticky)
+        self.sticky = dropped(sticky)
         self.scale = A.model_scale(m)
         ctx.label("arm " + spec["kind"])
         ctx.label("base moved" if np.any(np.asarray(spec["base"]) != 0) else "base identity")
@@ -155,11 +160,12 @@ class Setup:
         ctx.label("pos_tol >= 10 rot_tol" if r >= 10 else ("rot_tol >= 10 pos_tol" if r <= 0.1 else "tolerances within 10x"))
         self.tol_ratio_big = (r >= 10 or r <= 0.1)
         if self.sticky:
-            ctx.label("in-band base/tool rotation (loosened)")
+            ctx.label("base/tool rotation below the NearZero cut-off (loosened by it)")
 
     def band_slack(self, theta):
-        k = self.sticky + count_band(theta)
-        return 0.0 if k == 0 else max(LOOSE, 1.5e-6 * k)
+        """Rotation (rad) by which the library's FK of theta may differ from the exact one (see ``dropped``)."""
+        d = self.sticky + dropped(theta)
+        return 0.0 if d == 0 else 1.05 * d + 1e-12
 
     def fk(self, theta):
         return A.model_fk(self.model, theta, clamped=False)
@@ -229,8 +235,8 @@ def envelope(su, th, Gm, what):
     T = su.fk(th)
     alpha, dp = O.pose_err(T, Gm)
     slack = su.band_slack(th)
-    if slack:
-        ctx.label("in-band joint value in the solution (loosened)")
+    if dropped(th):
+        ctx.label("solution has a joint value below the NearZero cut-off (loosened by it)")
     pn = float(np.linalg.norm(T[:3, 3]))
     sc = max(1.0, pn, float(np.linalg.norm(Gm[:3, 3])))
     rot_lim = max(su.rt * (1 + REL) + 1e-12, LOG_RES) + slack
@@ -239,7 +245,7 @@ def envelope(su, th, Gm, what):
     if alpha > rot_lim:
         raise Violation("%s: success reported but FK(returned theta) is rotated %.6g rad from the goal; rot_tolerance=%.6g "
                         "(pos_tolerance=%.6g, position error %.6g)" % (what, alpha, su.rt, su.pt, dp))
-    pos_lim = su.pt * (1 + REL) + pn * alpha * (1 + REL) + 1e-12 * sc + slack * max(sc, su.scale)
+    pos_lim = su.pt * (1 + REL) + pn * alpha * (1 + REL) + 1e-12 * sc + slack * (pn + su.scale)
     if dp > pos_lim:
         raise Violation("%s: success reported but FK(returned theta) is %.6g away from the goal; pos_tolerance=%.6g, "
                         "envelope pos_tol+|p|*angle=%.6g (rot_tolerance=%.6g, rotation error %.6g, |p|=%.4g)"
@@ -265,14 +271,16 @@ def coherence(su, what):
     best = None
     for th in (stored, A.clamp(m, stored)):
         T = su.fk(th)
-        sc = max(1.0, su.scale, float(np.linalg.norm(T[:3, 3])))
+        pn = float(np.linalg.norm(T[:3, 3]))
+        sc = max(1.0, su.scale, pn)
         slack = su.band_slack(th)
-        tol = COH_TOL + 1e-14 * big + slack
+        tolr = COH_TOL + 1e-14 * big + slack
+        tolp = (COH_TOL + 1e-14 * big) * sc + slack * (pn + su.scale)
         a, d = O.pose_err(pose, T)
-        if a <= tol and d <= tol * sc:
+        if a <= tolr and d <= tolp:
             return stored
         if best is None:
-            best = (a, d, tol, tol * sc)
+            best = (a, d, tolr, tolp)
     raise Violation("%s: getEEPos() is not the pose of the stored joint vector %r: rotation off by %.3g (tol %.3g), "
                     "position off by %.3g (tol %.3g)" % (what, stored, best[0], best[2], best[1], best[3]))
 
@@ -367,8 +375,9 @@ def make_goal(su, goal):
         u = float(goal["u"])
         if kind == "beyond":
             bnorm = float(np.linalg.norm(m.B[:3, 3]))
-            worst_rot = max(su.rt, LOG_RES) + max(LOOSE, 1.5e-6 * (m.n + 2))
-            env = su.pt + (bnorm + R) * worst_rot + LOOSE * max(1.0, su.scale, bnorm + 4 * R + 1)
+            worst_slack = 1.05 * BAND_HI * (m.n + 2) + 1e-12
+            worst_rot = max(su.rt, LOG_RES) + worst_slack
+            env = su.pt + (bnorm + R) * worst_rot + worst_slack * (bnorm + R + su.scale)
             excess = 2.0 * env + 0.05 + 2.0 * u * max(R, 0.1)
             dist = R + excess
             su.ctx.note("reach", R)
@@ -470,16 +479,16 @@ def c_local(case, ctx):
     m = su.model
     ctx.nontrivial(su.tol_ratio_big)
     if su.sticky:
-        ctx.skip("base / tool rotation in the NearZero band: the library's arm differs from the model by up to 2e-6*lever")
+        ctx.skip("base / tool rotation below the NearZero cut-off: the library's arm differs from the model by that rotation")
     width = m.maxs - m.mins
     if np.any(width < 0.3 + 1e-9):
         ctx.skip("a joint interval is narrower than 0.3: no solution 0.15 inside the limits")
     ths = A.decode_theta(m, case["code"], inside=True, margin=0.15)
     if np.any(ths < m.mins + 0.15 - 1e-12) or np.any(ths > m.maxs - 0.15 + 1e-12):
         ctx.skip("solution not 0.15 inside the limits")
-    # joint values in the NearZero band (1e-9, 2e-6) are dropped by the library's exponential: the goal of such a
+    # joint values below the NearZero cut-off are dropped by the library's exponential: the goal of such a
     # solution would differ from the library's own FK of it by up to 2e-6*lever; use exact zeros instead
-    ths = np.where((np.abs(ths) > BAND_LO) & (np.abs(ths) < BAND_HI), 0.0, ths)
+    ths = np.where(np.abs(ths) < BAND_HI, 0.0, ths)
     k = min(m.n, 6)
     sv_s = np.linalg.svd(A.model_jac_space(m, ths, clamped=False), compute_uv=False)
     sv_b = np.linalg.svd(A.model_jac_body(m, ths, clamped=False), compute_uv=False)
@@ -553,8 +562,16 @@ def c_ikfree(case, ctx):
 # ------------------------------------------------------------------------------------------------
 
 SEED = st.integers(0, 2 ** 31 - 1)
-# log-uniform over 1e-9..1e-1 through an integer grid (Hypothesis' float strategy piles mass on a few values)
-TOLS = st.integers(0, 8000000).map(lambda k: 10.0 ** (-9.0 + k / 1e6))
+def _tol_pair(t):
+    a, b, c, d = t
+    x = a + b / 1000.0
+    y = (x + c + d / 1000.0) % 8.0
+    return {"pos": 10.0 ** (-9.0 + x), "rot": 10.0 ** (-9.0 + y)}
+
+
+# Two independent log-uniform draws from 1e-9..1e-1.  Built from small integers, the second as an offset modulo the
+# range: Hypothesis likes to repeat a value it has just drawn, which made 75 % of plain (float, float) pairs equal.
+TOLS = st.tuples(st.integers(0, 7), st.integers(0, 999), st.integers(0, 7), st.integers(0, 999)).map(_tol_pair)
 UNIT = G.unit_vectors()
 U01 = G.floats(0.0, 1.0)
 DELTA = st.lists(G.floats(-1.0, 1.0), min_size=A.NMAX, max_size=A.NMAX)
@@ -594,7 +611,7 @@ def requests(goals):
 
 
 def base_case(**extra):
-    d = {"arm": A.arm_specs(), "pos_tol": TOLS, "rot_tol": TOLS}
+    d = {"arm": A.arm_specs(), "tol": TOLS}
     d.update(extra)
     return st.fixed_dictionaries(d)
 
@@ -636,11 +653,11 @@ def roomy_arm_specs(draw):
 
 
 S_LOCAL = st.fixed_dictionaries({
-    "arm": roomy_arm_specs(), "pos_tol": TOLS, "rot_tol": TOLS, "code": A.theta_codes(), "delta": DELTA,
+    "arm": roomy_arm_specs(), "tol": TOLS, "code": A.theta_codes(), "delta": DELTA,
     "mag": st.one_of(G.floats(0.0, 0.02), st.just(0.02), G.log_uniform(1e-9, 0.02)),
     "solver": SOLVERS, "check": st.booleans(), "seed": SEED})
 S_IKFREE = st.fixed_dictionaries({
-    "arm": A.arm_specs(nmin=2), "pos_tol": TOLS, "rot_tol": TOLS, "code0": A.theta_codes(), "code1": A.theta_codes(),
+    "arm": A.arm_specs(nmin=2), "tol": TOLS, "code0": A.theta_codes(), "code1": A.theta_codes(),
     "free": st.lists(st.booleans(), min_size=A.NMAX, max_size=A.NMAX),
     "frac": st.one_of(st.just(0.0), G.floats(0.0, 0.3), G.floats(0.0, 0.3), G.floats(0.0, 1.0)),
     "eps": st.one_of(st.just(0.0), G.log_uniform(1e-10, 1e-2), G.log_uniform(1e-6, 3e-3)),
